@@ -1,9 +1,11 @@
------------------------------ MODULE LoadRaceMC -----------------------------
+---------------------------- MODULE LoadRaceMC ----------------------------
 EXTENDS LoadRace
 WK_set == (11 :> "set")
 WK_inv == (11 :> "invalidate")
 WK_ev  == (11 :> "evict")
 WK_two == (11 :> "set") @@ (12 :> "invalidate")
 WK_three == (11 :> "set") @@ (12 :> "evict") @@ (13 :> "invalidate")
+WK_stale == (11 :> "stale")
+WK_set_stale == (11 :> "set") @@ (12 :> "stale")
 WK_none == [w \in {} |-> "set"]
 =============================================================================
